@@ -43,7 +43,7 @@ Section PrintOnMain.
     assert (HP : Forall (day_printable NM c) L) by (eapply Forall_impl; [|exact HF]; apply day_ok_printable).
     pose proof (events_print_output_on NM Q FSO c L HL HP HQ) as E. split; [exact E|]. split; [|split].
     - unfold read_log. rewrite (scan_print_output_on NM Q FSO c L HL HP HQ). cbn [snd]. rewrite E.
-      apply lognodes_of_printed, HF.
+      apply lognodes_of_printed; [apply heading_layout_sep, HL|exact HF].
     - unfold days_in, day_in in HQ. eapply Forall_impl; [|exact HQ]. intros d Hd.
       eapply Forall_impl; [|exact Hd]. intros nv Hnv.
       destruct (reread_spec_on NM Q FSO (snd nv) Hnv) as [H1 [_ H3]]. split; [exact H1|exact H3].
@@ -52,16 +52,17 @@ Section PrintOnMain.
 
   (** the same for a layout that is a heading layout up to the spaces at its end *)
   Theorem print_reads_back_core_on c L :
-    forallb safe_tok (rc_date c) = true -> heading_layout (layout_core (rc_date c)) = true ->
+    forallb safe_tok (rc_date c) = true -> sep_ok (rc_date c) = true ->
+    heading_layout (layout_core (rc_date c)) = true ->
     Forall (day_ok NM c) L -> days_in NM Q L ->
     read_log NM (rc_date c) (print_output NM c L) = Some (map (reread_day NM) L).
   Proof.
-    intros Hsafe HL HF HQ. set (c' := with_date c (layout_core (rc_date c))).
+    intros Hsafe Hsep HL HF HQ. set (c' := with_date c (layout_core (rc_date c))).
     assert (Ec : rc_date c' = layout_core (rc_date c)) by reflexivity.
     assert (HL' : heading_layout (rc_date c') = true) by exact HL.
     assert (HP' : Forall (day_printable NM c') L).
     { eapply Forall_impl; [|exact HF]. intros d Hd. apply day_ok_printable, (day_ok_core NM c c' Ec), Hd. }
-    apply (read_log_core NM c c' Ec HL' Hsafe L HF).
+    apply (read_log_core NM c c' Ec HL' Hsafe Hsep L HF).
     - pose proof (printable_and_in NM Q c' L HP' HQ) as Hboth.
       eapply Forall_impl; [|exact Hboth]. intros d [Hd Hqd]. apply (day_lines_scannable_on NM Q FSO c' d HL' Hd Hqd).
     - apply (events_print_output_on NM Q FSO c' L HL' HP' HQ).
@@ -114,7 +115,7 @@ Section PrintOnMain.
   (** C14 for every readable log whose amounts satisfy [Q]: only the notes and
       the line lengths need hypotheses *)
   Theorem print_reads_back_log_on c data L :
-    forallb safe_tok (rc_date c) = true ->
+    forallb safe_tok (rc_date c) = true -> stable_layout (rc_date c) = true ->
     read_log NM (rc_date c) data = Some L ->
     days_in NM Q L ->
     Forall (fun d => Forall (fun mp => documented_note mp = true) (notes_of NM d)) L ->
@@ -123,12 +124,13 @@ Section PrintOnMain.
     /\ print_output NM c (map (reread_day NM) L) = print_output NM c L
     /\ days_in NM Q (map (reread_day NM) L).
   Proof.
-    intros Hsafe Hread HQ Hnotes Hlen.
+    intros Hsafe Hst Hread HQ Hnotes Hlen.
+    assert (Hsep : sep_ok (rc_date c) = true) by (unfold stable_layout in Hst; apply andb_true_iff in Hst; apply Hst).
     split; [|split; [apply print_output_reread_on, HQ|apply reread_days_in, HQ]].
     destruct (read_log_shape _ _ _ _ Hread) as [Hshape Hlay].
     destruct L as [|d0 L0]; [reflexivity|].
-    assert (HL : heading_layout (layout_core (rc_date c)) = true) by (apply Hlay; [discriminate|exact Hsafe]).
-    apply (print_reads_back_core_on c (d0 :: L0) Hsafe HL); [|exact HQ].
+    assert (HL : heading_layout (layout_core (rc_date c)) = true) by (apply Hlay; [discriminate|exact Hsafe|exact Hst]).
+    apply (print_reads_back_core_on c (d0 :: L0) Hsafe Hsep HL); [|exact HQ].
     rewrite Forall_forall in *. intros d Hd. destruct (Hshape d Hd) as [S1 [S2 [S3 S4]]].
     unfold day_ok. auto 10 using (Hnotes d Hd), (Hlen d Hd).
   Qed.
